@@ -1,9 +1,9 @@
 (* C10 — A multi-layer image flattens to the single-layer image.
-   Property theorems only; proofs are in Proofs/LayersProofs.v (grouping, each
-   file once), Proofs/LayersChain.v (stack invariant, well-formed layers),
+   Property theorems only; proofs are in Proofs/LayersProofs.v (budget, partition,
+   each file once), Proofs/LayersGroups.v (co-location, order invariance), Proofs/LayersChain.v (stack invariant, well-formed layers),
    Proofs/LayersExtract.v (the extractor read path-wise), Proofs/LayersFlatten.v. *)
 From Apko Require Import Base.Prelude Model.Tar Spec.TarSpec Model.Layers Spec.LayersSpec Proofs.LayersProofs
-  Proofs.LayersChain Proofs.LayersExtract Proofs.LayersFlatten.
+  Proofs.LayersChain Proofs.LayersExtract Proofs.LayersFlatten Proofs.LayersGroups Proofs.LayersValid.
 From Coq Require Import Sorting.Permutation Sorting.Sorted.
 Open Scope string_scope. Open Scope list_scope.
 
@@ -50,22 +50,69 @@ Theorem c10_negative_budget_one_group : forall rep_name rep_sat o3 o4 pkgs budge
 Proof. exact group_with_negative. Qed.
 Print Assumptions c10_negative_budget_one_group.
 
-(* c10_groups_partition — proved part: for every package list with distinct
-   names, every budget, EVERY iteration order of replaceMap (o3 is arbitrary,
-   not even required to be a permutation) and every order of
-   maps.Values(byOrigin) (o4 any permutation): each package is in exactly one
-   group (the groups' names are a permutation of the packages' names). Together
-   with c10_group_count this is the "partition within the budget" part.
-   NOT proved (checked on every run by the grouping validator on the real
-   function's output, 8 repetitions per input): same-origin and
-   satisfied-replaces packages share a group, and the result is the same list
-   for all iteration orders (c10_group_order_invariant). *)
-Theorem c10_groups_partition_partial : forall rep_name rep_sat pkgs o3 o4 budget gs,
+(* c10_groups_partition (FULL): for every package list with distinct names, every
+   budget and every iteration order of replaceMap (o3) and of
+   maps.Values(byOrigin) (o4) — any permutations: if the grouping returns,
+   (1) each package is in exactly one group (the groups' names are a permutation
+       of the packages' names; for this part o3 may be arbitrary);
+   (2) packages sharing an origin are in one group;
+   (3) a package whose `replaces` entry names an installed package and is
+       satisfied by that package's version is in that package's group. *)
+Theorem c10_groups_partition : forall rep_name rep_sat pkgs o3 o4 budget gs,
+  NoDup (map p_name pkgs) -> (forall l, Permutation (o3 l) l) -> (forall l, Permutation (o4 l) l) ->
+  group_with rep_name rep_sat o3 o4 pkgs budget = Ok gs ->
+  Permutation (List.concat (map names_of gs)) (map p_name pkgs) /\
+  (forall p q, In p pkgs -> In q pkgs -> p_origin p = p_origin q ->
+     same_group (map names_of gs) (p_name p) (p_name q)) /\
+  (forall p q rep, In p pkgs -> In q pkgs -> In rep (p_replaces p) -> rep_name rep = p_name q ->
+     rep_sat rep q = Ok true -> same_group (map names_of gs) (p_name p) (p_name q)).
+Proof.
+  intros rn rs pkgs o3 o4 b gs Hn Ho3 Ho4 H. split.
+  - exact (group_with_partition rn rs pkgs Hn o3 o4 b gs Ho4 H).
+  - exact (group_with_colocated rn rs pkgs Hn o3 o4 b gs Ho3 Ho4 H).
+Qed.
+Print Assumptions c10_groups_partition.
+
+(* the partition part alone needs nothing of o3 *)
+Theorem c10_groups_partition_any_o3 : forall rep_name rep_sat pkgs o3 o4 budget gs,
   NoDup (map p_name pkgs) -> (forall l, Permutation (o4 l) l) ->
   group_with rep_name rep_sat o3 o4 pkgs budget = Ok gs ->
   Permutation (List.concat (map names_of gs)) (map p_name pkgs).
 Proof. intros rn rs pkgs o3 o4 b gs Hn Ho H. exact (group_with_partition rn rs pkgs Hn o3 o4 b gs Ho H). Qed.
-Print Assumptions c10_groups_partition_partial.
+Print Assumptions c10_groups_partition_any_o3.
+
+(* c10_group_order_invariant (FULL): the result does not depend on the iteration
+   order of the Go maps: if the grouping returns gs for one pair of orders it
+   returns the SAME list of groups (same groups, same order of groups, same
+   order of packages in each) for every other pair.  In particular whether it
+   returns at all (an unparsable version makes replacesGroup fail) does not
+   depend on the order.  (C01 relies on this.)  Why: the merge loop reaches
+   the least partition coarser than by-origin that joins the two ends of every
+   satisfied replaces entry; (size, largest name) keys of distinct blocks
+   differ, and names within a block differ, so both sorts have one result. *)
+Theorem c10_group_order_invariant : forall rep_name rep_sat pkgs o3 o4 o3' o4' budget gs,
+  NoDup (map p_name pkgs) ->
+  (forall l, Permutation (o3 l) l) -> (forall l, Permutation (o4 l) l) ->
+  (forall l, Permutation (o3' l) l) -> (forall l, Permutation (o4' l) l) ->
+  group_with rep_name rep_sat o3 o4 pkgs budget = Ok gs ->
+  group_with rep_name rep_sat o3' o4' pkgs budget = Ok gs.
+Proof. intros rn rs pkgs o3 o4 o3' o4' b gs Hn. exact (group_with_order_invariant rn rs pkgs Hn o3 o4 o3' o4' b gs). Qed.
+Print Assumptions c10_group_order_invariant.
+
+(* everything the specification asks of the grouping, for budgets other than 0
+   (budget 0: one group where the literal bound is 0 — finding C10-F1 above) *)
+Theorem c10_groups_ok : forall rep_name rep_sat pkgs o3 o4 budget gs,
+  NoDup (map p_name pkgs) -> (forall l, Permutation (o3 l) l) -> (forall l, Permutation (o4 l) l) ->
+  (budget <> 0)%Z ->
+  group_with rep_name rep_sat o3 o4 pkgs budget = Ok gs ->
+  GroupsOk rep_name rep_sat pkgs budget (map names_of gs).
+Proof.
+  intros rn rs pkgs o3 o4 b gs Hn Ho3 Ho4 Hb H.
+  destruct (c10_groups_partition rn rs pkgs o3 o4 b gs Hn Ho3 Ho4 H) as [A [B C]].
+  split; [exact A | split; [| split; [exact B | exact C]]].
+  intros Hb0. rewrite map_length. pose proof (group_with_count rn rs o3 o4 pkgs b gs H). lia.
+Qed.
+Print Assumptions c10_groups_ok.
 
 Example c10_groups_example :
   let pk := [ {| p_name := "a"; p_version := "1"; p_origin := "oa"; p_size := 30; p_replaces := ["c"] |};
@@ -225,6 +272,17 @@ Proof.
   - intros e He Hd. vm_compute in He. repeat (destruct He as [<- | He]; [try reflexivity; discriminate Hd|]). destruct He.
   - eexists. split; [vm_compute; reflexivity | reflexivity].
 Qed.
+
+(* ---- the validators run on the implementation's output decide the specification ---- *)
+Theorem c10_groups_validator_decides : forall rep_name rep_sat pkgs budget gs,
+  groups_tags rep_name rep_sat pkgs budget gs = [] <-> GroupsOk rep_name rep_sat pkgs budget gs.
+Proof. exact groups_tags_decides. Qed.
+Print Assumptions c10_groups_validator_decides.
+
+Theorem c10_layers_validator_decides : forall gs own single layers,
+  layers_tags gs own single layers = [] <-> LayersOk gs own single layers.
+Proof. exact layers_tags_decides. Qed.
+Print Assumptions c10_layers_validator_decides.
 
 Example c10_split_example :
   let d p := {| e_path := p; e_kind := KDir; e_mode := 493; e_uid := 0; e_gid := 0; e_uname := None; e_gname := None;
